@@ -1,7 +1,7 @@
 SPECIFICATION GSpec
 CONSTANTS Devs = @DEVS@
           Follow = @FOLLOW@
-          InitSizes = {2}
+          InitSizes = {1}
           Roots = {"tree"}
           WLens = {0, 2}
           Ks = {0, 3}
